@@ -322,14 +322,14 @@ theorem fires_tape (fixed : Bool) : ∀ (blocks : List (List Byte)) (tail : List
 theorem fire_end (fixed : Bool) (t : Tap) (tail : List Byte) (ht : tail.length < 2) (hs : t.state = .play)
     (ha : Ahead t.rd tail) :
     ∃ t', fire fixed t = (none, t') ∧ t'.state = .stop ∧ t'.currBit = false ∧ t'.delay = 0
-      ∧ Idle t'.rd t'.rd.asset.data := by
-  obtain ⟨r1, he, _, hbl⟩ := nextBlock_end ha ht
-  refine ⟨smStop fixed { t with rd := r1, state := .stop }, by simp [fire, hs, he], ?_, ?_, ?_, ?_⟩
+      ∧ Idle t'.rd t'.rd.asset.data ∧ (fixed = true → t'.prevState = .stop) := by
+  obtain ⟨r1, he, _⟩ := nextBlock_end ha ht
+  refine ⟨smStop fixed { t with rd := r1, state := .stop }, by simp [fire, hs, he], ?_, ?_, ?_, ?_, ?_⟩
   · cases fixed <;> simp [smStop, Tap.rewind]
   · cases fixed <;> simp [smStop, Tap.rewind]
   · cases fixed <;> simp [smStop, Tap.rewind]
-  · cases fixed <;>
-      exact ⟨rfl, by simpa [smStop, Tap.rewind, Reader.rewind] using hbl, rfl, .inl rfl⟩
+  · cases fixed <;> exact ⟨rfl, rfl, .inl rfl⟩
+  · intro hf; subst hf; simp [smStop, Tap.rewind]
 
 /-! ### the timer of `process_clocks` -/
 
